@@ -120,14 +120,28 @@ pub fn hooks() -> &'static dyn Hooks {
 #[inline]
 #[track_caller]
 pub fn op(kind: Kind, cell: Cell, addr: usize, ord: Ordering, ord_fail: Option<Ordering>) -> Op {
+    guarded_op(kind, cell, addr, ord, ord_fail, 0)
+}
+
+/// As [`op`], for a load made through `Guard::protect` under the guard at address `guard`.
+#[inline]
+#[track_caller]
+pub fn guarded_op(
+    kind: Kind,
+    cell: Cell,
+    addr: usize,
+    ord: Ordering,
+    ord_fail: Option<Ordering>,
+    guard: usize,
+) -> Op {
     let op = Op {
         kind,
         cell,
         addr,
         ord,
         ord_fail,
-        protected: false,
-        guard: 0,
+        protected: guard != 0,
+        guard,
         loc: Location::caller(),
     };
     hooks().before_op(&op);
